@@ -35,6 +35,13 @@ def run(ctx):
                    "fields; each invocation is logged with the object's identity and the field values it sees: pre_randomize must "
                    "see the values from before the solve, post_randomize the final values; the constants handed to the solver "
                    "and the frame are judged against the values after the assignments.",
-        assumptions=["object trees (no object reachable by two attribute paths); lists of objects are not generated; callbacks "
+        assumptions=["object trees (no object reachable by two attribute paths); lists of objects have a fixed population; callbacks "
                      "around a random-size list: see C04's pre_randomize stream"],
         hooks=True, extra=snapshots)
+    tree_common.extra_stream(
+        ctx, "C17", 2 | 4 | 32,
+        "pre_randomize / post_randomize did not run exactly once on the top object, every random sub-object and every element of a "
+        "random list of objects (and on nothing else), or the values pre_randomize assigned are not the ones the solver saw",
+        tag="c17l", key="object_list_stream",
+        rule="the same trees with 1-2 lists of 2-3 objects: every element has both callbacks (pre_randomize assigns fields of its own)",
+        olists=True, hooks=True, extra=snapshots)
